@@ -86,7 +86,7 @@ inductive BufRes where
   | rune (r : Nat) (size : Nat) (err : String)
   | err (e : String)
   | panic (p : BufPanic)
-  deriving Repr
+  deriving Repr, DecidableEq
 
 def indexByte (p : Bytes) (d : UInt8) : Option Nat := p.findIdx? (· == d)
 
